@@ -67,8 +67,7 @@ def main():
         ctx.build = core.coq_build(all_generators())
         ctx.props = core.check_props_file(pid)
         if probs:
-            ctx.build["ok"] = False
-            ctx.build["log"] += "\nHYGIENE: " + "; ".join(probs)
+            ctx.build["fatal"] = "HYGIENE: " + "; ".join(probs)
         if args.replay:
             rep = json.load(open(args.replay))
             out = mod.replay(ctx, rep)
@@ -78,21 +77,12 @@ def main():
         coverage = mod.run(ctx) or {}
         # 5. a broken proof / translator / build with no concrete failing input found
         if not ctx.proof_ok():
-            broken = []
-            if probs:
-                broken += probs
-            broken += ["generator: " + g for g in ctx.build.get("gen_errors", [])]
-            broken += ["does not compile: " + f for f in ctx.build.get("failed", [])]
+            broken = list(probs) + ctx.broken_deps()
             if not ctx.props["ok"]:
                 broken.append("coq/props/%s.v no longer checks: %s" % (pid, ctx.props["log"][-600:]))
-            if not broken:
-                broken.append("build failed: " + ctx.build["log"][-800:])
-            relevant = getattr(mod, "DEPENDS", None)
-            mine = [b for b in broken if relevant is None or any(r in b for r in relevant) or "props/%s" % pid in b
-                    or b.startswith("generator") or "forbidden" in b or "HYGIENE" in b or "build failed" in b]
-            if mine and not [v for v in ctx.violations if not v["no_input"]]:
+            if not [v for v in ctx.violations if not v["no_input"]]:
                 ctx.violation("proof", "proof obligation or model build no longer checks", None,
-                              extra={"broken": mine, "theorems": ctx.props.get("theorems")}, no_input=True)
+                              extra={"broken": broken, "theorems": ctx.props.get("theorems")}, no_input=True)
     except Exception as e:  # machinery failure is never a silent pass
         traceback.print_exc()
         if not ctx.violations:
